@@ -598,7 +598,8 @@ pub fn random_project(rng: &mut Rng, nfiles: usize, adversarial: bool) -> Value 
         };
         let mut attrs = vec![attr(&derive)];
         if rng.chance(1, 3) {
-            attrs.push(attr(&format!("serde(rename_all = \"{}\")", rng.pick(&["camelCase", "snake_case", "PascalCase", "UPPERCASE"]))));
+            let rules: &[&str] = if adversarial { &["camelCase", "snake_case", "PascalCase", "UPPERCASE", "kebab-case", "SCREAMING-KEBAB-CASE", "lowercase"] } else { &["camelCase", "snake_case", "PascalCase", "UPPERCASE"] };
+            attrs.push(attr(&format!("serde(rename_all = \"{}\")", rng.pick(rules))));
         }
         let f = rng.below(nfiles);
         if rng.chance(1, 4) {
@@ -616,7 +617,13 @@ pub fn random_project(rng: &mut Rng, nfiles: usize, adversarial: bool) -> Value 
             let fields: Vec<Value> = (0..rng.below(5)).map(|k| {
                 let mut fa = Vec::new();
                 match rng.below(9) {
-                    0 => fa.push(attr(&format!("serde(rename = \"renamed{}\")", k))),
+                    0 => {
+                        if adversarial && rng.chance(1, 3) {
+                            fa.push(attr(&format!("serde(rename = \"{}\")", rng.pick(&["a-b", "with space", "a\\\"b", "class"]))))
+                        } else {
+                            fa.push(attr(&format!("serde(rename = \"renamed{}\")", k)))
+                        }
+                    }
                     1 => fa.push(attr("serde(skip)")),
                     2 => fa.push(attr("serde(default)")),
                     3 => fa.push(attr("serde(skip_serializing_if = \"Option::is_none\")")),
@@ -640,7 +647,11 @@ pub fn random_project(rng: &mut Rng, nfiles: usize, adversarial: bool) -> Value 
     };
     let ncmds = 1 + rng.below(3 + nfiles);
     for c in 0..ncmds {
-        let name = format!("{}_{}{}", rng.pick(&["get", "set", "load", "save", "list"]), rng.pick(&["user", "item", "config", "report"]), c);
+        let name = if adversarial && rng.chance(1, 10) {
+            rng.pick(&["class", "delete", "new", "r#type", "_1st", "typeof"]).to_string()
+        } else {
+            format!("{}_{}{}", rng.pick(&["get", "set", "load", "save", "list"]), rng.pick(&["user", "item", "config", "report"]), c)
+        };
         let mut params: Vec<Value> = Vec::new();
         let mut locals: Vec<(String, String)> = Vec::new();
         for k in 0..rng.below(4) {
